@@ -84,6 +84,9 @@ func isoTrees(e *Env, r *rand.Rand, parent string, hostileNames bool) []isoCase 
 	// hierarchy apart from the kind): both must be there, the directory with its own children
 	mk("file-dir-case", false, map[string]int64{"name": 5, "NAME/in": 7, "NAME/sub/deep": 2049, "zz": 1})
 	mk("dir-file-case", false, map[string]int64{"Data/in": 7, "data": 5, "x/Data": 3, "x/data/y": 4})
+	// portable names the random generator avoids: leading dot or dash, trailing dot, only dots and dashes
+	mk("dot-names", false, map[string]int64{".hidden": 3, "..a": 4, "...": 5, "-dash": 6, "a.": 7, ".dir/x": 8, "trailing./y": 1, "a.b.c.d": 2, "-": 9, "_": 10, ".d2/.f": 11, "--/--": 12})
+	mk("dot-names-ps3", true, map[string]int64{".hidden": 3, "PS3_GAME/.x": 4, "PS3_GAME/USRDIR/..a": 5})
 	mk("file-dir-case-ps3", true, map[string]int64{"usrdir": 5, "USRDIR/eboot.bin": 4097})
 	// directories whose records end exactly on a sector border, in the primary or the Joliet hierarchy
 	// ("." and ".." take 34+34 bytes; a record is 33+len+pad bytes, Joliet names take 2 bytes per character)
